@@ -11,7 +11,7 @@ import (
 )
 
 func init() {
-	Explanations["C04"] = "Decides structural necessary conditions of 'subscribers can follow the chain through the update stream' in chain.Manager: (R1) function values taken from the reorg/pool listener maps are invoked only in regions dominated by the success edge of a gated tip-walker call, and every path from that success edge to a return passes the invocation loop (notified whenever, and only when, the tip changed); (R2) every such invocation happens with Manager.mu definitely not held, and every return of a method with a deferred unlock is reached with the mutex held again; (R3) in the update-stream method the loop guard compares len(reverts)+len(applies) strictly below the caller's bound and no path through one iteration appends more than one update, and nothing is appended outside the loop; (R4) the store's revert step deletes the best-chain index entry of the reverted height, which the stream's on-best-chain test relies on to walk a subscriber back from an abandoned branch (same check as C03.R4). (R5) every store into the Manager's listener tables uses a key that cannot coincide with a live registration: a value drawn from a random source, a counter of the Manager that is incremented with every registration, or a key stored only on the negative side of a membership test of that table — never a quantity that shrinks when a listener unsubscribes (the table's length), a constant or a caller's value; otherwise a later subscriber silently replaces an earlier one, which then misses every tip change. NOT decided: contiguity of the returned path, equality of recomputed updates with the originals, validity of the carried proofs, polls racing reorgs beyond lock discipline (C01.R6)."
+	Explanations["C04"] = "Decides structural necessary conditions of 'subscribers can follow the chain through the update stream' in chain.Manager: (R1) function values taken from the reorg/pool listener maps are invoked only in regions dominated by the success edge of a gated tip-walker call, and every path from that success edge to a return passes the invocation loop (notified whenever, and only when, the tip changed); (R2) every such invocation happens with Manager.mu definitely not held, and every return of a method with a deferred unlock is reached with the mutex held again; (R3) in the update-stream method the loop guard compares len(reverts)+len(applies) strictly below the caller's bound and no path through one iteration appends more than one update, and nothing is appended outside the loop; (R4) the store's revert step deletes the best-chain index entry of the reverted height, which the stream's on-best-chain test relies on to walk a subscriber back from an abandoned branch (same check as C03.R4). (R5) every store into the Manager's listener tables uses a key that cannot coincide with a live registration: a value drawn from a random source, a counter of the Manager that is incremented with every registration, or a key stored only on the negative side of a membership test of that table — never a quantity that shrinks when a listener unsubscribes (the table's length), a constant or a caller's value; otherwise a later subscriber silently replaces an earlier one, which then misses every tip change. (R6) in the apply step the supplement handed to consensus.ApplyBlock and the one handed to Store.AddBlock denote the same value. NOT decided: contiguity of the returned path, equality of recomputed updates with the originals, validity of the carried proofs, polls racing reorgs beyond lock discipline (C01.R6)."
 
 	register(&Rule{ID: "C04.R1", Prop: "C04", Floor: 4, Doc: "listeners are notified exactly on the success edge of a gated reorg", Run: c04r1})
 	register(&Rule{ID: "C04.R2", Prop: "C04", Floor: 6, Doc: "listeners run unlocked; the mutex is re-acquired before the deferred unlock", Run: c04r2})
